@@ -56,6 +56,8 @@ pub enum Ev {
     FdtFrag(u32),
     /// complete FDT instance (FDT-only OTI) listing TOIs 1 and 2
     FdtFull(u32),
+    /// the complete FDT instance pushed last, once more (a carousel repetition of the current instance)
+    FdtFullAgain,
     OtherTsi,
     OtherEndpoint,
     /// advance the clock by a bit more than half the object timeout, cleanup
@@ -73,6 +75,9 @@ pub struct Cfg {
     /// receiver with enable_fdt_expiration_check = false (memory bounds and releases do not depend on it)
     #[serde(default)]
     pub no_exp_check: bool,
+    /// receiver with object_receive_once = false
+    #[serde(default)]
+    pub receive_twice: bool,
 }
 
 const E: usize = 100;
@@ -93,6 +98,8 @@ pub struct Rx {
     pub esi: [u32; 256],
     pub now: SystemTime,
     pub fresh: u32,
+    /// id of the complete FDT instance pushed last
+    pub last_full: u32,
     /// sessions currently open according to the listener events (opens - closes)
     pub open_sessions: Rc<std::cell::Cell<i64>>,
     /// virtual time (s) of the last packet pushed to each of the three sessions
@@ -149,13 +156,13 @@ impl Rx {
             session_timeout: Some(Duration::from_secs(SESS_TIMEOUT)),
             object_timeout: Some(Duration::from_secs(OBJ_TIMEOUT)),
             object_max_cache_size: Some(c.cache),
-            object_receive_once: true,
+            object_receive_once: !c.receive_twice,
             enable_fdt_expiration_check: !c.no_exp_check,
         };
         let open_sessions = Rc::new(std::cell::Cell::new(0i64));
         let mut rx = MultiReceiver::new(Rc::new(NullBuilder), Some(cfg), false);
         rx.add_listener(SessCount(open_sessions.clone()));
-        Rx { last_pkt: Default::default(), clock_s: 0, sessions: [false; 3], rx, esi: [0; 256], now: t0(), fresh: 100, open_sessions, last_sess_pkt: [None; 3] }
+        Rx { last_pkt: Default::default(), clock_s: 0, sessions: [false; 3], rx, esi: [0; 256], now: t0(), fresh: 100, last_full: 0, open_sessions, last_sess_pkt: [None; 3] }
     }
     pub fn nb_sessions(&self) -> usize {
         self.sessions.iter().filter(|s| **s).count().max(1)
@@ -225,8 +232,15 @@ impl Rx {
                 } else {
                     *id
                 };
+                self.last_full = id;
                 let id = &id;
                 let p = alloc::untracked(|| fdt_full_pkt(*id));
+                let _ = self.rx.push(&ep0, &p, self.now);
+                alloc::untracked(|| drop(p));
+            }
+            Ev::FdtFullAgain => {
+                let id = self.last_full.max(1);
+                let p = alloc::untracked(|| fdt_full_pkt(id));
                 let _ = self.rx.push(&ep0, &p, self.now);
                 alloc::untracked(|| drop(p));
             }
@@ -319,7 +333,8 @@ pub fn run_seq(c: &Cfg, seq: &[Ev], repeat: usize) -> (Option<(String, String)>,
         }
         marks.clear();
         if pumping {
-            let uses_fresh = seq.iter().any(|e| matches!(e, Ev::ObjNoFti(0) | Ev::ObjFti(0) | Ev::FdtFrag(0) | Ev::ObjFtiB(0) | Ev::FdtFull(0)));
+            // (complete FDT instances are not in this list: the receiver keeps a fixed number of the most recent ones)
+            let uses_fresh = seq.iter().any(|e| matches!(e, Ev::ObjNoFti(0) | Ev::ObjFti(0) | Ev::FdtFrag(0) | Ev::ObjFtiB(0)));
             let releases = seq.iter().any(|e| matches!(e, Ev::TickObj | Ev::TickSess)) && !seq.iter().any(|e| matches!(e, Ev::HalfTick));
             if (!uses_fresh || releases) && peak2 > peak1 + (E as isize + 512) {
                 return (
@@ -465,21 +480,23 @@ pub fn replay(v: &serde_json::Value) -> Vec<Violation> {
 pub fn run(thorough: bool) -> i32 {
     let mut rep = Report::new("C17", "model_checking", if thorough { "thorough" } else { "quick" });
     let depth = if thorough { 6 } else { 4 };
-    let alphabet = vec![Ev::ObjNoFti(1), Ev::ObjNoFti(0), Ev::ObjFti(1), Ev::ObjFti(2), Ev::ObjFtiB(0), Ev::ObjFtiB(1), Ev::ObjFar(1), Ev::FdtFrag(1), Ev::FdtFrag(0), Ev::FdtFull(3), Ev::FdtFull(0), Ev::OtherTsi, Ev::OtherEndpoint, Ev::HalfTick, Ev::TickObj, Ev::TickSess];
+    let alphabet = vec![Ev::ObjNoFti(1), Ev::ObjNoFti(0), Ev::ObjFti(1), Ev::ObjFti(2), Ev::ObjFtiB(0), Ev::ObjFtiB(1), Ev::ObjFar(1), Ev::FdtFrag(1), Ev::FdtFrag(0), Ev::FdtFull(3), Ev::FdtFull(0), Ev::FdtFullAgain, Ev::OtherTsi, Ev::OtherEndpoint, Ev::HalfTick, Ev::TickObj, Ev::TickSess];
     let cfgs: Vec<Cfg> = {
         let mut v = Vec::new();
         for cache in [3 * (E + 40), 64 * 1024] {
             for max_err in [0usize, 1, 2] {
-                v.push(Cfg { cache, max_err, no_exp_check: false });
+                v.push(Cfg { cache, max_err, no_exp_check: false, receive_twice: false });
             }
         }
-        v.push(Cfg { cache: 3 * (E + 40), max_err: 1, no_exp_check: true });
-        v.push(Cfg { cache: 64 * 1024, max_err: 0, no_exp_check: true });
+        v.push(Cfg { cache: 3 * (E + 40), max_err: 1, no_exp_check: true, receive_twice: false });
+        v.push(Cfg { cache: 64 * 1024, max_err: 0, no_exp_check: true, receive_twice: false });
+        v.push(Cfg { cache: 3 * (E + 40), max_err: 1, no_exp_check: false, receive_twice: true });
+        v.push(Cfg { cache: 64 * 1024, max_err: 2, no_exp_check: true, receive_twice: true });
         v
     };
     // (A) all sequences to the depth bound: one work item per (configuration, length, first two events);
     // the remaining events are enumerated lazily inside the worker (16^6 histories do not fit a Vec)
-    let acfgs: Vec<usize> = if thorough { (0..cfgs.len()).collect() } else { vec![0, 4, 6] };
+    let acfgs: Vec<usize> = if thorough { (0..cfgs.len()).collect() } else { vec![0, 4, 6, 8] };
     let na = alphabet.len();
     let mut witems: Vec<(usize, usize, usize)> = Vec::new(); // (cfg, length, prefix code)
     for ci in &acfgs {
@@ -542,11 +559,12 @@ pub fn run(thorough: bool) -> i32 {
     }
     let mut items: Vec<(usize, usize, usize)> = Vec::new(); // (cfg, pump index, repeat)
     for ci in 0..cfgs.len() {
-        if !thorough && ci % 2 == 1 {
+        if !thorough && ci % 2 == 1 && !cfgs[ci].receive_twice {
             continue;
         }
         for pi in 0..pumps.len() {
-            if !thorough && pumps[pi].len() == 2 && (pi + ci) % 3 != 0 {
+            // quick: a fixed third of the ordered pairs per configuration (all of them for the receive-twice receivers)
+            if !thorough && pumps[pi].len() == 2 && (pi + ci) % 3 != 0 && !cfgs[ci].receive_twice {
                 continue;
             }
             items.push((ci, pi, 400.max(8 * cfgs[ci].cache / E)));
